@@ -60,11 +60,64 @@ def run(ctx):
 
     J, runs, cov = common.sem_check(ctx, P, variants, level="exploration", post=post, write=False)
     cov["compound_answer_family"] = compound_family(ctx, rng)
+    cov["definecache_model"] = definecache_model(ctx)
     cov["histories_per_program"] = k
     cov["relational_comparisons"] = ctx.cov.get("relational", 0)
     ctx.write_evidence("exploration", cov, assumptions=[
         "histories use the public engine.prepare / engine.ground(db, term, target, label) / engine.query API with "
         "the same labels ClauseDBEngine.ground_all uses"])
+
+
+def definecache_model(ctx):
+    """DefineCache.tla: the table of completed / active goals (engine_stack.DefineCache), model checked and replayed on the real class"""
+    from .. import mc, tlc
+    cfgs = ctx.pick(["DefineCache_dont.cfg", "DefineCache_q.cfg"], ["DefineCache_dont.cfg", "DefineCache_two.cfg", "DefineCache_small.cfg"])
+    R = mc.check_cfgs([("DefineCache", c, True) for c in cfgs] + [("DefineCache", "DefineCache_perarg.cfg", False)],
+                      nproc=ctx.nproc, timeout=ctx.pick(900, 3000), parallel=4)
+    cases = []
+    for c in cfgs:
+        dont = [2] if c == "DefineCache_dont.cfg" else []
+        av = ([1] if c != "DefineCache_two.cfg" else [1, 2]) + [-1, -3]
+        goals = [[f, [x, y]] for f in ([1, 2] if dont else [1]) for x in av for y in av]
+        H = mc.exported(R[c]["out"])
+        if not H:
+            raise MachineryError("no behaviours exported by " + c)
+        for h in H:
+            cases.append({"id": len(cases), "dont": dont, "hist": h["hist"], "goals": goals,
+                          "_tab": [next((t for t in h["tab"] if t["g"] == g), {"g": g, "hit": 0, "items": [], "a": 0}) for g in goals]})
+    chunk = 4000
+    res = pl.run_jobs([("definecache_replay", {"cases": [{k: c[k] for k in ("id", "dont", "hist", "goals")} for c in cases[i:i + chunk]]})
+                       for i in range(0, len(cases), chunk)], nproc=ctx.nproc, timeout=900, chunksize=1)
+    drift = 0
+    for r in res:
+        if r.get("error"):
+            raise MachineryError("definecache_replay failed: %s" % r)
+        for o in r["results"]:
+            ctx.evaluations += 1
+            c = cases[o["id"]]
+            hist = [[e["k"], e["g"], e["res"]] for e in c["hist"]]
+            if o.get("error"):
+                ctx.violation({"clause": "crash", "level": "definecache-direct", "error": o["error"].split(":")[0]},
+                              "DefineCache call history %s: %s" % (hist, o["error"]), {"dcache": {"dont": c["dont"], "hist": c["hist"], "goals": c["goals"]}})
+                continue
+            for exp, got in zip(c["_tab"], o["tab"]):
+                if exp["hit"] == got["hit"] and exp["items"] == got["items"] and exp["a"] == got["a"]:
+                    continue
+                # The model's lookups equal the abstract (variant-class, latest-call) meaning in every state (invariant Refines), so a
+                # hit with other content, or an active node for a goal that is no variant of an activated one, is a wrong table answer;
+                # a miss where the model hits only costs sharing and is reported as drift.
+                if (got["hit"] and got["items"] != exp["items"]) or (got["a"] and got["a"] != exp["a"]):
+                    ctx.violation({"clause": "table-returns-other-goal", "level": "definecache-direct"},
+                                  "DefineCache call history %s: lookup of goal %s returns %s / active node %s, the calls made define %s / %s" % (
+                                      hist, exp["g"], got["items"] if got["hit"] else "miss", got["a"], exp["items"] if exp["hit"] else "miss", exp["a"]),
+                                  {"dcache": {"dont": c["dont"], "hist": c["hist"], "goals": c["goals"], "tab": c["_tab"]}})
+                else:
+                    drift += 1
+                break
+    if drift:
+        print("DRIFT property=C08 %d of %d call histories on the real DefineCache differ from DefineCache.tla (misses only)" % (drift, len(cases)))
+    return {"model_states": {c: R[c]["states"] for c in cfgs}, "expected_counterexample_found": "DefineCache_perarg.cfg (one VarReindex per argument)",
+            "model_behaviours_replayed": len(cases), "model_drift": drift}
 
 
 def compound_texts(rng, n):
@@ -142,6 +195,20 @@ def replay(ctx, path):
     with open(path) as f:
         d = json.load(f)
     c = d["case"]
+    if "dcache" in c:
+        x = c["dcache"]
+        o = pl.run_local("definecache_replay", cases=[{"id": 0, "dont": x["dont"], "hist": x["hist"], "goals": x["goals"]}])["results"][0]
+        print(json.dumps(x["hist"]), "\n->", o)
+        ctx.evaluations = 1
+        if o.get("error"):
+            ctx.violation({"clause": "crash", "level": "definecache-direct", "error": o["error"].split(":")[0]}, o["error"], c)
+        else:
+            for exp, got in zip(x.get("tab", []), o["tab"]):
+                if (got["hit"] and got["items"] != exp["items"]) or (got["a"] and got["a"] != exp["a"]):
+                    ctx.violation({"clause": "table-returns-other-goal", "level": "definecache-direct"}, "lookup of %s returns %s" % (exp["g"], got), c)
+                    break
+        ctx.write_evidence("exploration", {"evaluations": 1, "distinct_nontrivial": 0, "samples": [x["hist"]]})
+        return
     if c.get("kind") == "compound":
         base = sorted(c["steps"])
         f = pl.run_local("history", text=c["text"], steps=base, mode="fresh")
